@@ -9,7 +9,7 @@ from vlib.core import Case
 PROP = "C10"
 SPEC_MODE = "oracle"
 KEEP_PREFIX = 1
-SIZES = {"quick": 3000, "thorough": 60000}
+SIZES = {"quick": 8000, "thorough": 250000}
 BATCH = 4000
 RULE = ("sequential: one throttling rule per case (threshold from integers, fractions, 0, -0, subnormal, huge, +Inf and values that put "
         "b*I/T next to an integer; statIntervalMs incl. 0 and 2^32-1; maxQueueingTimeMs incl. 0, k*interval and k*interval+-1), 10-60 "
@@ -326,7 +326,7 @@ def extra(ctx, eng):
     quick = ctx.tier == "quick"
     two = list(itertools.product(range(2), repeat=10))          # every interleaving of two calls (<= 5 hooks each) is a prefix of one of these
     three_all = None
-    n2, n3 = (6, 4) if quick else (60, 30)
+    n2, n3 = (12, 8) if quick else (150, 60)
     total = 0
     for j, cfg in enumerate(enum_configs(rng, n2)):
         cs = enum_cases(rng, cfg, 2, two, f"e2-{j}")
